@@ -147,6 +147,7 @@ structure Ham where
   naming : Naming
   tops : List (Option String × Node)          -- top_level_hogs, dict order (later same key overwrites)
   genes : List GeneRec                        -- extant_gene_map, declaration order
+  species : List (String × Taxon) := []       -- every <species> element with the leaf it resolved to
   reg : List (Taxon × Key)                    -- every Genome.add_gene call, call order
 deriving Repr, Inhabited
 
